@@ -23,6 +23,7 @@ mod vxlate;
 mod vctor;
 mod verboseiter;
 mod text;
+mod keytext;
 mod translate;
 mod tree;
 
@@ -51,6 +52,7 @@ fn main() {
         "lift" => lift::run(&args[2..]),
         "validate" => validate::run(&args[2..]),
         "text" => text::run(&args[2..]),
+        "keytext" => keytext::run(&args[2..]),
         "ext" => ext::run(&args[2..]),
         "eqord" => eqord::run(&args[2..]),
         "translate" => translate::run(&args[2..]),
